@@ -551,6 +551,10 @@ func (p *parser) parsePrimaryCond() (Expr, *SyntaxError) {
 			return nil, serr(ReasonJuxtaposed, "expected ) at %d", p.peek().pos)
 		}
 		p.next()
+		// a parenthesised condition cannot be compared: (a < b) = c
+		if nt := p.peek(); nt.kind == tOp || isKw(nt, "BETWEEN") || isKw(nt, "IN") {
+			return nil, serr(ReasonBoolOperand, "parenthesised condition used as operand at %d", nt.pos)
+		}
 		return Paren{e}, nil
 	}
 	op, err := p.parseOperand(true)
